@@ -96,7 +96,11 @@ var scalars = map[string]bool{"String": true, "ID": true, "Int": true}
 
 var schemaTab = map[string]*typeDef{
 	"Query": {Kind: "OBJECT", Objects: []string{"Query"}, Fields: []fieldDef{
-		{"t", "T"}, {"tReq", "T"}, {"ts", "T"}, {"node", "Node"}, {"u", "U"}, {"str", "String"}, {"strReq", "String"}, {"arg", "String"}, {"targ", "T"}}},
+		{"t", "T"}, {"tReq", "T"}, {"ts", "T"}, {"node", "Node"}, {"u", "U"}, {"str", "String"}, {"strReq", "String"}, {"arg", "String"}, {"targ", "T"}, {"rep", "Rep"}}},
+	// Rep/Row are added by this check (c14_extra.graphql, hand-written Go model): schema fields
+	// that share ONE Go field and therefore one ComplexityRoot member
+	"Rep":      {Kind: "OBJECT", Objects: []string{"Rep"}, Fields: []fieldDef{{"old", "Row"}, {"rows", "Row"}, {"newFoo", "String"}, {"new_foo", "String"}}},
+	"Row":      {Kind: "OBJECT", Objects: []string{"Row"}, Fields: []fieldDef{{"id", "ID"}}},
 	"Mutation": {Kind: "OBJECT", Objects: []string{"Mutation"}, Fields: []fieldDef{{"m1", "T"}, {"m2", "T"}, {"m3", "String"}}},
 	"T": {Kind: "OBJECT", Objects: []string{"T"}, Fields: []fieldDef{
 		{"id", "ID"}, {"name", "String"}, {"req", "String"}, {"plain", "String"}, {"plainReq", "String"},
@@ -107,6 +111,18 @@ var schemaTab = map[string]*typeDef{
 	"Named": {Kind: "INTERFACE", Objects: []string{"T"}, Fields: []fieldDef{{"id", "ID"}, {"name", "String"}}},
 	"Deep":  {Kind: "INTERFACE", Objects: []string{"T"}, Fields: []fieldDef{{"id", "ID"}, {"peer", "Node"}}},
 	"U":     {Kind: "UNION", Objects: []string{"S", "T"}},
+}
+
+// sharedGoField: schema fields bound to the Go field (ComplexityRoot member) of another schema
+// field: old @goField(name:"rows") precedes rows in the schema, new_foo follows newFoo.
+var sharedGoField = map[string]string{"Rep.old": "Rep.rows", "Rep.new_foo": "Rep.newFoo"}
+
+// canon maps "Object.schemaField" to the key under which its custom function is configured.
+func canon(key string) string {
+	if c, ok := sharedGoField[key]; ok {
+		return c
+	}
+	return key
 }
 
 func fieldType(parent, field string) string {
@@ -460,7 +476,7 @@ func (op *Op) RelevantFields() []string {
 			case KField:
 				if n.Name != "__typename" {
 					for _, o := range schemaTab[parent].Objects {
-						set[o+"."+n.Name] = true
+						set[canon(o+"."+n.Name)] = true
 					}
 				}
 				if len(n.Kids) > 0 {
